@@ -1264,7 +1264,7 @@ def replay_emission(ctx, raw_paths, known, quick, stats):
     keep = stats.setdefault("_keep", {})
     drift_seen = stats.setdefault("drift_by_zone", {})
     samples = {}
-    scale_mod = 9 if quick else 23
+    scale_mod = 13 if quick else 23
     for tag, v, h in (x for rp in raw_paths for x in stream_printed(rp)):
         if len(ctx.violations) >= 5:
             break
@@ -1363,7 +1363,7 @@ def replay_emission(ctx, raw_paths, known, quick, stats):
 def record_executions(ctx, quick, stats):
     rng = ctx.rng
     traces, metas = [], []
-    ndocs = 160 if quick else 1200
+    ndocs = 130 if quick else 1200
     for i in range(ndocs):
         conc = make_conc(rng, "mstress" if i % 4 == 0 else "marker")
         ver, lines, kind = gen_doc(rng)
@@ -1383,7 +1383,7 @@ def record_executions(ctx, quick, stats):
         metas.append({"kind": "trace", "tkind": "parse", "lines": lines, "strict": False, "src": src, "nl": "nl", "conc": conc.to_json(), "doc": "big"})
         stats["longest_document_lines"] = max(stats.get("longest_document_lines", 0), len(lines))
     nparse = len(traces)
-    napi = 70 if quick else 500
+    napi = 60 if quick else 500
     bigs = {3: (257, 33), 7: (1000, 3), 9: (2, 257), 11: (100, 100), 13: (33, 1)}
     for i in range(napi):
         conc = api_conc(rng, i % 5 == 0)
